@@ -211,7 +211,8 @@ def job_perm(job: dict) -> dict:
     for perm in job["perms"]:
         order = [paths[i] for i in perm]
         orch = setup_base_orchestrator(order, None, False, None)
-        bag = Counter(canon(v) for v in _bag(orch.lint_files(order), root))
+        found = orch.lint_files_parallel(order, max_workers=2) if job.get("mode") == "parallel" else orch.lint_files(order)
+        bag = Counter(canon(v) for v in _bag(found, root))
         if ref is None:
             ref = bag
         elif bag != ref:
@@ -338,18 +339,25 @@ def run(chk) -> None:
             chk.rng.shuffle(p)
             perms.append(p)
         pjobs.append({"n": n, "cross": [[1, 2], [3, n], [5, 6, 7]], "layout": "flat", "perms": perms})
+    # the same claim for the pooled path (2 workers: the pool is used from 4 files on): how the list is cut into
+    # tasks must not show in the result
+    for n, num in ([(4, 24), (6, 12)] if quick else [(4, 24), (5, 60), (6, 60), (9, 40)]):
+        perms = list(itertools.permutations(range(n)))
+        chk.rng.shuffle(perms)
+        pjobs.append({"n": n, "cross": [[1, 2], [3, n]], "layout": "flat", "mode": "parallel",
+                      "perms": [list(range(n))] + [list(p) for p in perms[:num - 1]]})
     for i, j in enumerate(pjobs):
         j["root"] = str(scratch_root() / f"c08p-{i}" / "proj")
     res = pool.run_jobs(job_perm, pjobs, nproc=NCPU, timeout=900)
     for job, r_ in zip(pjobs, res):
         if not r_.ok:
             raise MachineryError(f"C08 permutation job failed: {r_.error}")
-        chk.count({"kind": "perm", "n": job["n"], "layout": job["layout"], "nperm": r_.value["nperm"]},
+        chk.count({"kind": "perm", "n": job["n"], "layout": job["layout"], "nperm": r_.value["nperm"], "mode": job.get("mode", "sequential")},
                   nontrivial=True, n=r_.value["nperm"])
         for b in r_.value["bad"][:3]:
             v = (b["missing"] + b["extra"])[0]
-            chk.reject({"clause": "Order", "rule": v["rule_id"]},
-                       {"kind": "perm", "n": job["n"], "layout": job["layout"], "perm": b["perm"], "cross": job["cross"]},
+            chk.reject({"clause": "Order", "rule": v["rule_id"], **({"mode": "parallel"} if job.get("mode") else {})},
+                       {"kind": "perm", "mode": job.get("mode", "sequential"), "n": job["n"], "layout": job["layout"], "perm": b["perm"], "cross": job["cross"]},
                        f"file order {b['perm']} changes {v['rule_id']} findings")
 
     # 4. hash seeds and side effects, real processes
